@@ -933,3 +933,553 @@ Section Merkle.
 End Merkle.
 Print Assumptions commit_merkle_ctree.
 Print Assumptions commit_merkle_plain.
+
+(* ------------------------------------------------------------------------------------------ *)
+(* C01: the invariants are preserved                                                           *)
+(* ------------------------------------------------------------------------------------------ *)
+
+(* no dangling directory reference: a directory child recorded in a manifest of the cache is in
+   the cache (commit writes children before parents; objects are never removed) *)
+Definition man_present (c : cache) : Prop :=
+  forall d o m, cget c d = Some o -> dec_manifest (o_data o) = Some m ->
+    Forall (fun kv => a_isdir (snd kv) = true -> has_cs (a_cs (snd kv)) = true ->
+                      exists o', cget c (a_cs (snd kv)) = Some o') (m_contents m).
+
+(* present and a manifest *)
+Definition in_dec (c : cache) (cs : bytes) : Prop :=
+  exists o, cget c cs = Some o /\ dec_manifest (o_data o) <> None.
+
+Lemma in_dec_le c c' cs : cache_le c c' -> in_dec c cs -> in_dec c' cs.
+Proof.
+  intros Hle (o & Hg & Hd). destruct (Hle _ _ Hg) as (o' & Hg' & E). exists o'.
+  split; [exact Hg'|]. rewrite E. exact Hd.
+Qed.
+
+Section Closed.
+  Variable H : bytes -> bytes.
+  Hypothesis Hinj : H_inj H.
+  Hypothesis Hhas : H_has H.
+  Hypothesis Htext : H_text H.
+  Hypothesis Hcodec : codec_ok.
+
+  Lemma closed_cput c b :
+    cache_ok H c -> man_closed c -> man_present c ->
+    (forall m, dec_manifest b = Some m ->
+               Forall (fun kv => a_isdir (snd kv) = true -> in_dec c (a_cs (snd kv))) (m_contents m)) ->
+    man_closed (cput c (H b) b) /\ man_present (cput c (H b) b).
+  Proof.
+    intros Hc Hcl Hpr Hb.
+    pose proof (cput_le H c b Hinj Hc) as Hle. split.
+    - intros d o m. rewrite cget_cput. destruct (beqb d (H b)) eqn:Ed.
+      + intros Ho Hm. injection Ho as <-. cbn [o_data] in Hm. specialize (Hb m Hm).
+        eapply Forall_impl; [|exact Hb]. intros kv Hkv Hd o' Hg'.
+        destruct (in_dec_le _ _ _ Hle (Hkv Hd)) as (o2 & Hg2 & Hd2). congruence.
+      + intros Hg Hm. pose proof (Hcl _ _ _ Hg Hm) as Hc1. pose proof (Hpr _ _ _ Hg Hm) as Hp1.
+        rewrite Forall_forall in *. intros kv Hin Hd o'. rewrite cget_cput.
+        destruct (beqb (a_cs (snd kv)) (H b)) eqn:Ek.
+        * apply beqb_eq in Ek. intros Ho'. injection Ho' as <-. cbn [o_data].
+          assert (Hh : has_cs (a_cs (snd kv)) = true) by (rewrite Ek; apply Hhas).
+          destruct (Hp1 _ Hin Hd Hh) as (o0 & Hg0).
+          pose proof (Hc1 _ Hin Hd _ Hg0) as Hd0.
+          destruct (Hc _ _ Hg0) as [E0 _]. rewrite Ek in E0. apply Hinj in E0. rewrite E0. exact Hd0.
+        * apply (Hc1 _ Hin Hd).
+    - intros d o m. rewrite cget_cput. destruct (beqb d (H b)) eqn:Ed.
+      + intros Ho Hm. injection Ho as <-. cbn [o_data] in Hm. specialize (Hb m Hm).
+        eapply Forall_impl; [|exact Hb]. intros kv Hkv Hd _.
+        destruct (in_dec_le _ _ _ Hle (Hkv Hd)) as (o2 & Hg2 & _). exists o2. exact Hg2.
+      + intros Hg Hm. pose proof (Hpr _ _ _ Hg Hm) as Hp1.
+        eapply Forall_impl; [|exact Hp1]. intros kv Hkv Hd Hh.
+        destruct (Hkv Hd Hh) as (o0 & Hg0). destruct (Hle _ _ Hg0) as (o1 & Hg1 & _).
+        exists o1. exact Hg1.
+  Qed.
+
+  Definition PB (n : node) : Prop :=
+    forall a c st n' c' a',
+      ctree c n -> wf_text (a_path a) -> cache_ok H c -> man_plain c ->
+      man_closed c -> man_present c ->
+      commit_node H a n c st = Ok (n', c', a') ->
+      man_closed c' /\ man_present c'.
+
+  Lemma B_entries es :
+    Forall (fun e => PB (snd e)) es ->
+    forall nr old st c es' c1 m,
+      StronglySorted key_lt es ->
+      Forall (fun e => good_name (fst e) /\ ctree c (snd e)) es ->
+      old_ok old -> cache_ok H c -> man_plain c -> man_closed c -> man_present c ->
+      commit_entries (commit_node H) nr old st es c = Ok (es', c1, m) ->
+      man_closed c1 /\ man_present c1 /\
+      Forall (fun kv => a_isdir (snd kv) = true -> in_dec c1 (a_cs (snd kv))) m.
+  Proof.
+    intros IH.
+    induction IH as [|[name ch] r IHch _ IHr]; intros nr old st c es' c1 m Hs Hes Hold Hc Hmp Hcl Hpr He.
+    - apply commit_entries_nil in He. injection He as _ -> ->.
+      split; [exact Hcl|]. split; [exact Hpr|constructor].
+    - inversion Hs as [|e0 r0 Hsr Hlt]; subst.
+      inversion Hes as [|e0 r0 [Hgn Hch0] Hr0]; subst. cbn [fst snd] in *.
+      apply commit_entries_cons in He
+        as [(_ & es1 & Hr & _)|(_ & _ & ch' & c0 & child' & es1 & m1 & Hch & Hr & _ & ->)].
+      + exact (IHr _ _ _ _ _ _ _ Hsr Hr0 Hold Hc Hmp Hcl Hpr Hr).
+      + destruct (child_of_props old name ch Hold) as (Hcp & _ & _).
+        assert (Hwfp : wf_text (a_path (child_of old name ch)))
+          by (rewrite Hcp; exact (good_name_wf _ Hgn)).
+        destruct (IHch _ _ _ _ _ _ Hch0 Hwfp Hc Hmp Hcl Hpr Hch) as [Hcl0 Hpr0].
+        destruct (commit_A H Hinj Htext Hcodec _ _ _ _ _ _ _ Hch0 Hwfp Hc Hmp Hch) as (M0 & _ & _ & AP).
+        destruct (commit_cache_ok H Hinj _ _ _ _ _ _ _ Hc Hch) as [Hc0 Hle0].
+        pose proof (commit_entries_cache_ok H _ Hinj _ _ _ _ _ _ _ Hc0 Hr) as [_ Hle1].
+        destruct (IHr _ _ _ _ _ _ _ Hsr (Forall_ctree_le _ _ _ Hle0 Hr0) Hold Hc0 M0 Hcl0 Hpr0 Hr)
+          as (Hcl1 & Hpr1 & F1).
+        split; [exact Hcl1|]. split; [exact Hpr1|]. constructor; [|exact F1].
+        cbn [snd]. intros Hd. apply (in_dec_le _ _ _ Hle1).
+        destruct (AP Hd) as (o & m0 & Hg & Hm). exists o. split; [exact Hg|]. rewrite Hm. discriminate.
+  Qed.
+
+  Lemma commit_B n : PB n.
+  Proof.
+    induction n as [b|d|t| |es IH] using node_ind2; intros a c st n' c' a' Ht Hwp Hc Hmp Hcl Hpr Hok.
+    1-4: rewrite commit_node_leaf in Hok by reflexivity;
+         destruct (a_isdir a) eqn:Eisd; [discriminate|];
+         apply commit_file_inv in Hok
+           as [(_ & _ & -> & _)|[(_ & b' & Eb & _ & [(_ & _ & ->)|(_ & -> & _)])
+                               |(d' & o' & _ & _ & _ & -> & _)]];
+         try discriminate; try (inversion Ht; fail); try (split; assumption).
+    - injection Eb as <-. inversion Ht as [b0 Htame| |]; subst.
+      apply closed_cput; try assumption. intros m Hm. specialize (Htame m Hm).
+      eapply Forall_impl; [|exact Htame]. intros kv [_ Hk] Hd. congruence.
+    - apply commit_dir_inv in Hok as (Eisd & old & es' & c1 & m & Hold & He & -> & -> & ->).
+      inversion Ht as [| |es0 Hs Hes]; subst.
+      pose proof (old_contents_ok _ _ _ Hmp Hold) as Hoo.
+      destruct (B_entries es IH _ _ _ _ _ _ _ Hs Hes Hoo Hc Hmp Hcl Hpr He) as (Hcl1 & Hpr1 & F1).
+      destruct (A_entries' H Hinj Htext Hcodec es _ _ _ _ _ _ _ Hs Hes Hoo Hc Hmp He)
+        as (M1 & T1 & K1 & E1 & S1 & _).
+      pose proof (commit_entries_cache_ok H _ Hinj _ _ _ _ _ _ _ Hc He) as [Hc1 _].
+      set (M := mkMan (a_path a) m).
+      assert (Hdec : dec_manifest (enc_manifest M) = Some M)
+        by (apply Hcodec; apply wf_written; assumption).
+      apply closed_cput; try assumption.
+      intros m0 Hm0. rewrite Hdec in Hm0. injection Hm0 as <-. exact F1.
+  Qed.
+
+  (* stmt_commit_inv is FALSE as written (cex_inv_plain, cex_inv_closed below).  Repaired with
+     [tame n] (through ctree) and [man_present c]; man_present is preserved as well. *)
+  Theorem commit_inv_ctree :
+    forall a n c st n' c' a',
+      ctree c n -> wf_text (a_path a) -> cache_inv H c -> man_present c ->
+      commit_node H a n c st = Ok (n', c', a') ->
+      cache_inv H c' /\ man_present c' /\ art_hist_ok c' a' /\ ctree c' n' /\ cache_le c c'.
+  Proof.
+    intros a n c st n' c' a' Ht Hwp (Hc & Hmp & Hcl) Hpr Hok.
+    destruct (commit_cache_ok H Hinj _ _ _ _ _ _ _ Hc Hok) as [Hc' Hle].
+    destruct (commit_A H Hinj Htext Hcodec _ _ _ _ _ _ _ Ht Hwp Hc Hmp Hok) as (M' & T' & _ & AP).
+    destruct (commit_B n _ _ _ _ _ _ Ht Hwp Hc Hmp Hcl Hpr Hok) as [Hcl' Hpr'].
+    split; [split; [exact Hc'|split; [exact M'|exact Hcl']]|].
+    split; [exact Hpr'|]. split; [|split; [exact T'|exact Hle]].
+    intros Hd o Hg. destruct (AP Hd) as (o2 & m2 & Hg2 & Hm2). congruence.
+  Qed.
+
+  Theorem commit_inv_tame :
+    forall a n c st n' c' a',
+      plain n -> tame n -> wf_text (a_path a) -> cache_inv H c -> man_present c ->
+      commit_node H a n c st = Ok (n', c', a') ->
+      cache_inv H c' /\ man_present c' /\ art_hist_ok c' a'.
+  Proof.
+    intros a n c st n' c' a' Hp Htm Hwp Hinv Hpr Hok.
+    destruct (commit_inv_ctree _ _ _ _ _ _ _ (plain_tame_ctree c n Hp Htm) Hwp Hinv Hpr Hok)
+      as (H1 & H2 & H3 & _).
+    split; [exact H1|]. split; [exact H2|exact H3].
+  Qed.
+End Closed.
+Print Assumptions commit_inv_ctree.
+Print Assumptions commit_inv_tame.
+
+(* ------------------------------------------------------------------------------------------ *)
+(* C01: commit succeeds                                                                        *)
+(* ------------------------------------------------------------------------------------------ *)
+
+Definition old_in_dec (c : cache) (old : list (bytes * artifact)) : Prop :=
+  Forall (fun kv => a_isdir (snd kv) = true -> has_cs (a_cs (snd kv)) = true ->
+                    in_dec c (a_cs (snd kv))) old.
+
+Lemma old_contents_total a c : art_hist_ok c a -> a_isdir a = true -> exists old, old_contents a c = Ok old.
+Proof.
+  intros Hh Hd. unfold old_contents. destruct (has_cs (a_cs a)); [|eexists; reflexivity].
+  destruct (cget c (a_cs a)) as [o|] eqn:Eg; [|eexists; reflexivity].
+  specialize (Hh Hd _ Eg). destruct (dec_manifest (o_data o)); [eexists; reflexivity|congruence].
+Qed.
+
+Lemma old_contents_in_dec a c old :
+  man_closed c -> man_present c -> old_contents a c = Ok old -> old_in_dec c old.
+Proof.
+  intros Hcl Hpr. unfold old_contents, old_in_dec. destruct (has_cs (a_cs a)).
+  - destruct (cget c (a_cs a)) as [o|] eqn:Eg.
+    + destruct (dec_manifest (o_data o)) as [m|] eqn:Ed; [|discriminate].
+      intros Hok. injection Hok as <-.
+      pose proof (Hcl _ _ _ Eg Ed) as H1. pose proof (Hpr _ _ _ Eg Ed) as H2.
+      rewrite Forall_forall in *. intros kv Hin Hd Hh.
+      destruct (H2 _ Hin Hd Hh) as (o' & Hg'). exists o'. split; [exact Hg'|].
+      exact (H1 _ Hin Hd _ Hg').
+    + intros Hok. injection Hok as <-. constructor.
+  - intros Hok. injection Hok as <-. constructor.
+Qed.
+
+Lemma old_in_dec_le c c' old : cache_le c c' -> old_in_dec c old -> old_in_dec c' old.
+Proof.
+  intros Hle Ho. unfold old_in_dec in *. eapply Forall_impl; [|exact Ho].
+  intros kv Hkv Hd Hh. exact (in_dec_le _ _ _ Hle (Hkv Hd Hh)).
+Qed.
+
+Section Succeeds.
+  Variable H : bytes -> bytes.
+  Hypothesis Hinj : H_inj H.
+  Hypothesis Hhas : H_has H.
+  Hypothesis Htext : H_text H.
+  Hypothesis Hcodec : codec_ok.
+
+  Lemma child_hist c old name ch :
+    cache_ok H c -> old_in_dec c old -> art_hist_ok c (child_of old name ch).
+  Proof.
+    intros Hc Ho Hd o Hg.
+    assert (Hh : has_cs (a_cs (child_of old name ch)) = true).
+    { destruct (Hc _ _ Hg) as [E _]. rewrite E. apply Hhas. }
+    revert Hd o Hg Hh. unfold child_of.
+    assert (Hf : a_isdir (fresh_art name (is_dir ch)) = true ->
+                 forall o, cget c (a_cs (fresh_art name (is_dir ch))) = Some o ->
+                 has_cs (a_cs (fresh_art name (is_dir ch))) = true -> dec_manifest (o_data o) <> None)
+      by (intros _ o _ Hh; discriminate Hh).
+    destruct (alookup name old) as [oa|] eqn:El; [|exact Hf].
+    destruct (Bool.eqb (a_isdir oa) (is_dir ch)); [|exact Hf].
+    intros Hd o Hg Hh. apply alookup_In in El. unfold old_in_dec in Ho. rewrite Forall_forall in Ho.
+    destruct (Ho _ El Hd Hh) as (o' & Hg' & Hd'). cbn [snd] in *. congruence.
+  Qed.
+
+  Definition POK (n : node) : Prop :=
+    forall a c st,
+      ctree c n -> kind_ok a n -> wf_text (a_path a) -> cache_inv H c -> man_present c ->
+      art_hist_ok c a ->
+      exists n' c' a', commit_node H a n c st = Ok (n', c', a').
+
+  Lemma OK_entries es :
+    Forall (fun e => POK (snd e)) es ->
+    forall nr old st c,
+      StronglySorted key_lt es ->
+      Forall (fun e => good_name (fst e) /\ ctree c (snd e)) es ->
+      old_ok old -> old_in_dec c old -> cache_inv H c -> man_present c ->
+      exists r, commit_entries (commit_node H) nr old st es c = Ok r.
+  Proof.
+    intros IH.
+    induction IH as [|[name ch] r IHch _ IHr]; intros nr old st c Hs Hes Hold Hod Hinv Hpr.
+    - eexists. reflexivity.
+    - inversion Hs as [|e0 r0 Hsr Hlt]; subst.
+      inversion Hes as [|e0 r0 [Hgn Hch0] Hr0]; subst. cbn [fst snd] in *.
+      cbn [commit_entries]. destruct (nr && is_dir ch).
+      + destruct (IHr nr old st c Hsr Hr0 Hold Hod Hinv Hpr) as ([[es1 c1] m1] & Hr).
+        rewrite Hr. eexists. reflexivity.
+      + rewrite (proj1 Hgn). cbn [negb].
+        destruct (child_of_props old name ch Hold) as (Hcp & _ & Hcd).
+        assert (Hwfp : wf_text (a_path (child_of old name ch)))
+          by (rewrite Hcp; exact (good_name_wf _ Hgn)).
+        pose proof Hinv as (Hc & Hmp & Hcl).
+        destruct (IHch (child_of old name ch) c st Hch0 Hcd Hwfp Hinv Hpr (child_hist _ _ _ _ Hc Hod))
+          as (ch' & c0 & child' & Hch).
+        rewrite Hch.
+        destruct (commit_inv_ctree H Hinj Hhas Htext Hcodec _ _ _ _ _ _ _ Hch0 Hwfp Hinv Hpr Hch)
+          as (Hinv0 & Hpr0 & _ & _ & Hle0).
+        destruct (IHr nr old st c0 Hsr (Forall_ctree_le _ _ _ Hle0 Hr0) Hold
+                      (old_in_dec_le _ _ _ Hle0 Hod) Hinv0 Hpr0) as ([[es1 c1] m1] & Hr).
+        rewrite Hr. eexists. reflexivity.
+  Qed.
+
+  Lemma commit_OK n : POK n.
+  Proof.
+    induction n as [b|d|t| |es IH] using node_ind2; intros a c st Ht Hk Hwp Hinv Hpr Hh;
+      try (inversion Ht; fail); unfold kind_ok in Hk; cbn [is_dir] in Hk.
+    - rewrite commit_node_leaf by reflexivity. rewrite Hk. unfold commit_file.
+      destruct (qmatch c (a_cs a) (Some (File b))); [do 3 eexists; reflexivity|].
+      destruct (a_skip a); [do 3 eexists; reflexivity|]. destruct st; do 3 eexists; reflexivity.
+    - rewrite commit_node_leaf by reflexivity. rewrite Hk. unfold commit_file.
+      destruct (qmatch c (a_cs a) (Some (LinkC d))); [do 3 eexists; reflexivity|].
+      inversion Ht as [|d' o Hg|]; subst. unfold in_cache. rewrite Hg. do 3 eexists; reflexivity.
+    - rewrite commit_node_dir, Hk. destruct (old_contents_total a c Hh Hk) as (old & Hold).
+      rewrite Hold. inversion Ht as [| |es0 Hs Hes]; subst.
+      pose proof Hinv as (Hc & Hmp & Hcl).
+      destruct (OK_entries es IH (a_norec a) old st c Hs Hes (old_contents_ok _ _ _ Hmp Hold)
+                           (old_contents_in_dec _ _ _ Hcl Hpr Hold) Hinv Hpr) as ([[es1 c1] m1] & Hr).
+      rewrite Hr. cbv zeta. do 3 eexists; reflexivity.
+  Qed.
+
+  (* stmt_commit_ok is FALSE as written (cex_ok below).  Repaired with [tame n], [man_present c],
+     a text path and the hash/codec premises; [a_skip a = false] is not needed.  Also holds for
+     trees with (resolved) cache links. *)
+  Theorem commit_ok_ctree :
+    forall a n c st, ctree c n -> kind_ok a n -> wf_text (a_path a) ->
+      cache_inv H c -> man_present c -> art_hist_ok c a ->
+      exists n' c' a', commit_node H a n c st = Ok (n', c', a').
+  Proof. intros a n c st. apply commit_OK. Qed.
+
+  Theorem commit_ok_tame :
+    forall a n c st, plain n -> tame n -> kind_ok a n -> wf_text (a_path a) ->
+      cache_inv H c -> man_present c -> art_hist_ok c a ->
+      exists n' c' a', commit_node H a n c st = Ok (n', c', a').
+  Proof. intros a n c st Hp Htm. apply commit_OK. exact (plain_tame_ctree c n Hp Htm). Qed.
+End Succeeds.
+Print Assumptions commit_ok_ctree.
+Print Assumptions commit_ok_tame.
+
+(* ------------------------------------------------------------------------------------------ *)
+(* C15: committing again changes nothing                                                       *)
+(* ------------------------------------------------------------------------------------------ *)
+
+Lemma bltb_total a : forall b, beqb a b = false -> bltb a b = false -> bltb b a = true.
+Proof.
+  induction a as [|x a IH]; intros [|y b] Hne Hnl; cbn [bltb beqb] in *;
+    try reflexivity; try discriminate.
+  destruct (x <? y) eqn:Exy; [discriminate|].
+  destruct (y <? x) eqn:Eyx; [reflexivity|].
+  replace (x =? y) with true in Hne by lia. cbn [andb] in Hne.
+  exact (IH _ Hne Hnl).
+Qed.
+
+Definition kv_lt {A} (a b : bytes * A) : Prop := bltb (fst a) (fst b) = true.
+
+Lemma in_ins_sorted {A} k (v : A) l x : In x (ins_sorted k v l) -> x = (k, v) \/ In x l.
+Proof.
+  induction l as [|[k' v'] r IH]; cbn [ins_sorted].
+  - intros [<-|[]]. left. reflexivity.
+  - destruct (beqb k k').
+    + intros [<-|Hin]; [left; reflexivity|right; right; exact Hin].
+    + destruct (bltb k k').
+      * intros [<-|Hin]; [left; reflexivity|right; exact Hin].
+      * intros [<-|Hin]; [right; left; reflexivity|].
+        destruct (IH Hin) as [->|Hin']; [left; reflexivity|right; right; exact Hin'].
+Qed.
+
+Lemma ins_sorted_sorted {A} k (v : A) l :
+  StronglySorted kv_lt l -> StronglySorted kv_lt (ins_sorted k v l).
+Proof.
+  induction l as [|[k' v'] r IH]; intros Hs; cbn [ins_sorted].
+  - constructor; constructor.
+  - inversion Hs as [|e0 r0 Hr Hall]; subst. destruct (beqb k k') eqn:E1.
+    + apply beqb_eq in E1. subst k'. constructor; [exact Hr|exact Hall].
+    + destruct (bltb k k') eqn:E2.
+      * constructor; [exact Hs|]. constructor; [exact E2|].
+        eapply Forall_impl; [|exact Hall]. intros e He. unfold kv_lt in *. cbn [fst] in *.
+        exact (bltb_trans _ _ _ E2 He).
+      * constructor; [exact (IH Hr)|]. apply Forall_forall. intros x Hin.
+        apply in_ins_sorted in Hin as [->|Hin].
+        -- unfold kv_lt. cbn [fst]. apply bltb_total; [exact E1|exact E2].
+        -- rewrite Forall_forall in Hall. exact (Hall _ Hin).
+Qed.
+
+(* re-inserting a binding that is already there leaves a sorted list unchanged *)
+Lemma ins_sorted_id {A} k (v : A) l :
+  StronglySorted kv_lt l -> alookup k l = Some v -> ins_sorted k v l = l.
+Proof.
+  induction l as [|[k' v'] r IH]; intros Hs Hl; cbn [ins_sorted alookup] in *; [discriminate|].
+  inversion Hs as [|e0 r0 Hr Hall]; subst. destruct (beqb k k') eqn:E1.
+  - apply beqb_eq in E1. injection Hl as <-. subst k'. reflexivity.
+  - destruct (bltb k k') eqn:E2.
+    + exfalso. apply alookup_In in Hl. rewrite Forall_forall in Hall. specialize (Hall _ Hl).
+      unfold kv_lt in Hall. cbn [fst] in Hall. rewrite (bltb_asym _ _ Hall) in E2. discriminate.
+    + rewrite (IH Hr Hl). reflexivity.
+Qed.
+
+Lemma alookup_sorted_In {A} (l : list (bytes * A)) k v :
+  StronglySorted kv_lt l -> In (k, v) l -> alookup k l = Some v.
+Proof.
+  induction l as [|[k' v'] r IH]; intros Hs Hin; [destruct Hin|].
+  inversion Hs as [|e0 r0 Hr Hall]; subst. cbn [alookup]. destruct Hin as [E|Hin].
+  - injection E as -> ->. rewrite beqb_refl. reflexivity.
+  - rewrite Forall_forall in Hall. pose proof (Hall _ Hin) as Hlt. unfold kv_lt in Hlt. cbn [fst] in Hlt.
+    rewrite beqb_sym, (bltb_neq _ _ Hlt). exact (IH Hr Hin).
+Qed.
+
+Section Idem.
+  Variable H : bytes -> bytes.
+  Hypothesis Hinj : H_inj H.
+  Hypothesis Hhas : H_has H.
+  Hypothesis Htext : H_text H.
+  Hypothesis Hcodec : codec_ok.
+
+  (* any property of caches that [cput] preserves is preserved by commit *)
+  Lemma commit_cache_pres (R : cache -> Prop) :
+    (forall c d b, R c -> R (cput c d b)) ->
+    forall n a c st n' c' a', R c -> commit_node H a n c st = Ok (n', c', a') -> R c'.
+  Proof.
+    intros HR n.
+    induction n as [b|d|t| |es IH] using node_ind2; intros a c st n' c' a' Hc Hok.
+    1-4: rewrite commit_node_leaf in Hok by reflexivity;
+         (destruct (a_isdir a); [discriminate|]);
+         apply commit_file_inv in Hok
+           as [(_ & _ & -> & _)|[(_ & b' & _ & _ & [(_ & _ & ->)|(_ & -> & _)])
+                               |(d' & o' & _ & _ & _ & -> & _)]];
+         try exact Hc; apply HR; exact Hc.
+    apply commit_dir_inv in Hok as (_ & old & es' & c1 & m & _ & He & _ & -> & _).
+    apply HR. clear a'. revert c es' c1 m Hc He.
+    induction IH as [|[name ch] r IHch _ IHr]; intros c es' c1 m Hc He.
+    - apply commit_entries_nil in He. injection He as _ <- _. exact Hc.
+    - apply commit_entries_cons in He
+        as [(_ & es1 & Hr & _)|(_ & _ & ch' & c0 & child' & es1 & m1 & Hch & Hr & _ & _)].
+      + exact (IHr _ _ _ _ Hc Hr).
+      + exact (IHr _ _ _ _ (IHch _ _ _ _ _ _ Hc Hch) Hr).
+  Qed.
+
+  Lemma commit_sorted n a c st n' c' a' :
+    cache_sorted c -> commit_node H a n c st = Ok (n', c', a') -> cache_sorted c'.
+  Proof.
+    apply (commit_cache_pres cache_sorted). intros c0 d b Hs. unfold cput.
+    exact (ins_sorted_sorted d (mkObj b cache_perms) c0 Hs).
+  Qed.
+
+  Lemma commit_node_isdir a n c st n' c' a' :
+    commit_node H a n c st = Ok (n', c', a') -> is_dir n' = is_dir n.
+  Proof.
+    destruct (is_dir n) eqn:Ed.
+    - destruct n as [| | |es|]; try discriminate. intros Hok.
+      apply commit_dir_inv in Hok as (_ & old & es' & c1 & m & _ & _ & -> & _). reflexivity.
+    - rewrite (commit_node_leaf _ _ _ _ _ Ed). destruct (a_isdir a); [discriminate|].
+      intros Hok.
+      apply commit_file_inv in Hok
+        as [(_ & -> & _)|[(_ & b & -> & _ & [(_ & -> & _)|(_ & _ & ->)])|(d & o & _ & _ & -> & _)]];
+        try exact Ed; try reflexivity. destruct st; reflexivity.
+  Qed.
+
+  (* storing again an object that is there *)
+  Lemma cput_id c b o :
+    cache_ok H c -> cache_sorted c -> cget c (H b) = Some o -> o_data o = b -> cput c (H b) b = c.
+  Proof.
+    intros Hc Hs Hg Hd. unfold cput. apply ins_sorted_id; [exact Hs|].
+    destruct (Hc _ _ Hg) as [_ Hm]. destruct o as [d0 m0]. cbn [o_data o_mode] in *. subst. exact Hg.
+  Qed.
+
+  Definition PI (n : node) : Prop :=
+    forall a c st n' c' a',
+      ctree c n -> wf_text (a_path a) -> cache_ok H c -> man_plain c ->
+      commit_node H a n c st = Ok (n', c', a') ->
+      forall c2, cache_le c' c2 -> cache_ok H c2 -> cache_sorted c2 ->
+                 commit_node H a' n' c2 st = Ok (n', c2, a').
+
+  Lemma I_entries es :
+    Forall (fun e => PI (snd e)) es ->
+    forall nr old st c es' c1 m,
+      StronglySorted key_lt es ->
+      Forall (fun e => good_name (fst e) /\ ctree c (snd e)) es ->
+      old_ok old -> cache_ok H c -> man_plain c ->
+      commit_entries (commit_node H) nr old st es c = Ok (es', c1, m) ->
+      forall c2 old2, cache_le c1 c2 -> cache_ok H c2 -> cache_sorted c2 ->
+        (forall kv, In kv m -> alookup (fst kv) old2 = Some (snd kv)) ->
+        commit_entries (commit_node H) nr old2 st es' c2 = Ok (es', c2, m).
+  Proof.
+    intros IH.
+    induction IH as [|[name ch] r IHch _ IHr];
+      intros nr old st c es' c1 m Hs Hes Hold Hc Hmp He c2 old2 Hle2 Hc2 Hs2 Hlk.
+    - apply commit_entries_nil in He. injection He as -> _ ->. reflexivity.
+    - inversion Hs as [|e0 r0 Hsr Hlt]; subst.
+      inversion Hes as [|e0 r0 [Hgn Hch0] Hr0]; subst. cbn [fst snd] in *.
+      apply commit_entries_cons in He
+        as [(Esk & es1 & Hr & ->)|(Esk & _ & ch' & c0 & child' & es1 & m1 & Hch & Hr & -> & ->)].
+      + cbn [commit_entries]. rewrite Esk.
+        rewrite (IHr _ _ _ _ _ _ _ Hsr Hr0 Hold Hc Hmp Hr c2 old2 Hle2 Hc2 Hs2 Hlk). reflexivity.
+      + destruct (child_of_props old name ch Hold) as (Hcp & _ & Hcd).
+        assert (Hwfp : wf_text (a_path (child_of old name ch)))
+          by (rewrite Hcp; exact (good_name_wf _ Hgn)).
+        destruct (commit_A H Hinj Htext Hcodec _ _ _ _ _ _ _ Hch0 Hwfp Hc Hmp Hch) as (M0 & _).
+        destruct (commit_cache_ok H Hinj _ _ _ _ _ _ _ Hc Hch) as [Hc0 Hle0].
+        pose proof (commit_entries_cache_ok H _ Hinj _ _ _ _ _ _ _ Hc0 Hr) as [_ Hle1].
+        destruct (commit_node_flags H _ _ _ _ _ _ _ Hch) as (Fp & Fd & _ & _).
+        pose proof (commit_node_isdir _ _ _ _ _ _ _ Hch) as Eid.
+        cbn [commit_entries]. rewrite Eid, Esk, (proj1 Hgn). cbn [negb].
+        assert (Ech : child_of old2 name ch' = child').
+        { unfold child_of. rewrite <- Hcp, <- Fp.
+          rewrite (Hlk (a_path child', child') (or_introl eq_refl)). cbn [snd].
+          rewrite Fd, Hcd, Eid, eqb_reflx. reflexivity. }
+        rewrite Ech.
+        rewrite (IHch _ _ _ _ _ _ Hch0 Hwfp Hc Hmp Hch c2 (cache_le_trans _ _ _ Hle1 Hle2) Hc2 Hs2).
+        rewrite (IHr _ _ _ _ _ _ _ Hsr (Forall_ctree_le _ _ _ Hle0 Hr0) Hold Hc0 M0 Hr c2 old2 Hle2 Hc2 Hs2).
+        * reflexivity.
+        * intros kv Hin. apply Hlk. right. exact Hin.
+  Qed.
+
+  Lemma commit_I n : PI n.
+  Proof.
+    induction n as [b|d|t| |es IH] using node_ind2;
+      intros a c st n' c' a' Ht Hwp Hc Hmp Hok c2 Hle2 Hc2 Hs2.
+    1-4: rewrite commit_node_leaf in Hok by reflexivity;
+         destruct (a_isdir a) eqn:Eisd; [discriminate|];
+         apply commit_file_inv in Hok
+           as [(Hq & -> & -> & ->)|[(_ & b' & Eb & -> & [(Esk & -> & ->)|(Esk & -> & ->)])
+                                   |(d' & o' & Ed & Hg' & -> & -> & ->)]];
+         try discriminate; try (inversion Ht; fail).
+    - apply qmatch_inv in Hq as (_ & Hn & _). discriminate.
+    - (* File, skip *)
+      injection Eb as <-. rewrite commit_node_leaf by reflexivity. cbn [set_cs a_isdir]. rewrite Eisd.
+      unfold commit_file. unfold qmatch at 1. rewrite andb_false_r. cbn [set_cs a_skip]. rewrite Esk.
+      reflexivity.
+    - (* File, stored *)
+      injection Eb as <-.
+      assert (Hg2 : exists o2, cget c2 (H b) = Some o2 /\ o_data o2 = b).
+      { destruct (Hle2 (H b) (mkObj b cache_perms)) as (o2 & Hg2 & E2).
+        - rewrite cget_cput, beqb_refl. reflexivity.
+        - exists o2. split; [exact Hg2|exact E2]. }
+      destruct Hg2 as (o2 & Hg2 & E2).
+      rewrite commit_node_leaf by (destruct st; reflexivity). cbn [set_cs a_isdir]. rewrite Eisd.
+      unfold commit_file. destruct st.
+      + unfold qmatch, in_cache. cbn [set_cs a_cs]. rewrite (Hhas b), Hg2, beqb_refl. reflexivity.
+      + unfold qmatch at 1. rewrite andb_false_r. cbn [set_cs a_skip a_cs]. rewrite Esk.
+        rewrite (cput_id _ _ _ Hc2 Hs2 Hg2 E2). reflexivity.
+    - (* LinkC, qmatch *)
+      apply qmatch_inv in Hq as (Hh & Hn & o & Hg). injection Hn as ->.
+      destruct (Hle2 _ _ Hg) as (o2 & Hg2 & _).
+      rewrite commit_node_leaf by reflexivity. rewrite Eisd. unfold commit_file.
+      unfold qmatch, in_cache. rewrite Hh, Hg2, beqb_refl. reflexivity.
+    - (* LinkC, adopted *)
+      injection Ed as <-. destruct (Hle2 _ _ Hg') as (o2 & Hg2 & _).
+      rewrite commit_node_leaf by reflexivity. cbn [set_cs a_isdir]. rewrite Eisd. unfold commit_file.
+      unfold qmatch, in_cache. cbn [set_cs a_cs]. rewrite Hg2, beqb_refl.
+      destruct (Hc _ _ Hg') as [-> _]. rewrite (Hhas _). reflexivity.
+    - (* Dir *)
+      apply commit_dir_inv in Hok as (Eisd & old & es' & c1 & m & Hold & He & -> & -> & ->).
+      inversion Ht as [| |es0 Hs Hes]; subst.
+      pose proof (old_contents_ok _ _ _ Hmp Hold) as Hoo.
+      destruct (A_entries' H Hinj Htext Hcodec es _ _ _ _ _ _ _ Hs Hes Hoo Hc Hmp He)
+        as (M1 & T1 & K1 & E1 & S1 & _).
+      pose proof (commit_entries_cache_ok H _ Hinj _ _ _ _ _ _ _ Hc He) as [Hc1 _].
+      set (M := mkMan (a_path a) m) in *.
+      assert (Hdec : dec_manifest (enc_manifest M) = Some M)
+        by (apply Hcodec; apply wf_written; assumption).
+      assert (Hle1 : cache_le c1 (cput c1 (H (enc_manifest M)) (enc_manifest M)))
+        by (apply cput_le; assumption).
+      destruct (Hle2 (H (enc_manifest M)) (mkObj (enc_manifest M) cache_perms)) as (o2 & Hg2 & E2);
+        [rewrite cget_cput, beqb_refl; reflexivity|]. cbn [o_data] in E2.
+      rewrite commit_node_dir. cbn [set_cs a_isdir a_norec a_path a_cs]. rewrite Eisd.
+      unfold old_contents. cbn [a_cs]. rewrite (Hhas _), Hg2, E2, Hdec. cbn [m_contents M].
+      rewrite (I_entries es IH _ _ _ _ _ _ _ Hs Hes Hoo Hc Hmp He c2 m
+                         (cache_le_trans _ _ _ Hle1 Hle2) Hc2 Hs2).
+      + cbv zeta. fold M. rewrite (cput_id _ _ _ Hc2 Hs2 Hg2 E2). reflexivity.
+      + intros [k v] Hin. cbn [fst snd]. apply alookup_sorted_In; [exact S1|exact Hin].
+  Qed.
+
+  (* stmt_commit_idem with [tame n] (through ctree) added; [a_skip a = false] is not needed.
+     (The statement of CacheDefs is not refuted; without [tame] the manifests commit writes may
+     carry flags, and codec_ok as defined says nothing about those.) *)
+  Theorem commit_idem_ctree :
+    forall a n c st n' c' a',
+      ctree c n -> wf_text (a_path a) -> cache_ok H c -> man_plain c -> cache_sorted c ->
+      commit_node H a n c st = Ok (n', c', a') ->
+      commit_node H a' n' c' st = Ok (n', c', a').
+  Proof.
+    intros a n c st n' c' a' Ht Hwp Hc Hmp Hs Hok.
+    apply (commit_I n _ _ _ _ _ _ Ht Hwp Hc Hmp Hok c' (cache_le_refl c')).
+    - exact (proj1 (commit_cache_ok H Hinj _ _ _ _ _ _ _ Hc Hok)).
+    - exact (commit_sorted _ _ _ _ _ _ _ Hs Hok).
+  Qed.
+
+  Theorem commit_idem_tame :
+    forall a n c st n' c' a',
+      plain n -> tame n -> wf_text (a_path a) -> cache_ok H c -> man_plain c -> cache_sorted c ->
+      commit_node H a n c st = Ok (n', c', a') ->
+      commit_node H a' n' c' st = Ok (n', c', a').
+  Proof.
+    intros a n c st n' c' a' Hp Htm. apply commit_idem_ctree. exact (plain_tame_ctree c n Hp Htm).
+  Qed.
+End Idem.
+Print Assumptions commit_idem_ctree.
+Print Assumptions commit_idem_tame.
